@@ -56,6 +56,8 @@ def cases(tier, seed):
         out.append(dict(t="chunks_all", depth=R.choice([1, 2]), seed=R.randrange(1 << 30), map=i, _timeout=900))
     for i in range(5 if q else 40):
         out.append(dict(t="chunks_all", depth=R.choice([1, 2, 2]), seed=R.randrange(1 << 30), map=i, aligned=i + 1, _timeout=900))
+    for i in range(3 if q else 30):
+        out.append(dict(t="fits_tiler", n=[2, 3, 2][i % 3], par=[1, 2, 1][i % 3], seed=R.randrange(1 << 30), _timeout=900))
     return out
 
 
@@ -432,7 +434,7 @@ def case_sampling(spec, workdir):
     ws = samplers.WcsSampler(data, w)
     fmt = spec["fmt"]
     a, b = os.path.join(workdir, "filtered"), os.path.join(workdir, "full")
-    toast.sample_layer_filtered(PyramidIO(a, default_format=fmt), ws.filter(), ws.sampler(), D, parallel=1)
+    toast.sample_layer_filtered(PyramidIO(a, default_format=fmt), ws.filter(), ws.sampler(), D, parallel=[1, 2, 3][spec["seed"] % 3])
     toast.sample_layer_filtered(PyramidIO(b, default_format=fmt), lambda t: True, ws.sampler(), D, parallel=1)
     ta, tb = tilegen.list_tiles(a, fmt), tilegen.list_tiles(b, fmt)
     probs = []
@@ -543,6 +545,51 @@ def case_chunks_all(spec, workdir):
     return _fin(r, probs)
 
 
+def case_fits_tiler(spec, workdir):
+    """tile_fits(..., TOAST) of SEVERAL images far apart on the sky: the footprint filter handed to the cascade is the union of
+    the images' filters - every tile that holds data at the deepest level has all its ancestors in the pyramid"""
+    import toasty
+    from toasty import TilingMethod
+
+    from vlib import fitsgen, instr_mp
+
+    R = random.Random(spec["seed"])
+    rng = np.random.default_rng(spec["seed"])
+    ind = os.path.join(workdir, "in")
+    os.makedirs(ind)
+    paths = []
+    ra0, dec0 = R.uniform(0, 360), R.uniform(-40, 40)
+    for i in range(spec["n"]):
+        m = rng.normal(size=(60, 80)).astype(np.float32) + 5
+        cv = ((ra0 + 70.0 * i + R.uniform(-5, 5)) % 360, max(-70, min(70, dec0 + R.uniform(-25, 25))))
+        paths.append(fitsgen.write_piece(os.path.join(ind, "im%d.fits" % i), m, (0, 0, 80, 60), (40, 30), scale=R.choice([0.05, 0.03]), crval=cv, bottoms_up=bool(i % 2),
+                                         rot=R.choice([None, 30, 200])))
+    out = os.path.join(workdir, "out")
+    instr_mp.install("natural", spec["seed"])
+    toasty.tile_fits(paths, out_dir=out, parallel=spec["par"], override=True, tiling_method=TilingMethod.TOAST)
+    tiles = tilegen.list_tiles(out, "fits")
+    probs = []
+    if not tiles:
+        return dict(status="inconclusive", detail="tile_fits wrote no tiles")
+    L = max(p[0] for p in tiles)
+    n = 0
+    for p in sorted(t for t in tiles if t[0] == L):
+        a = tilegen.read_tile(out, p, "fits")
+        if a is None or not np.isfinite(a).any():
+            continue
+        n += 1
+        for q in ancestors(p) + [(0, 0, 0)]:
+            if q not in tiles:
+                probs.append(("collection-filter-false-negative", "tile %s holds data of the collection, but its ancestor %s is not in the pyramid (%d input images)" % (p, q, spec["n"])))
+                break
+        if len(probs) > 4:
+            break
+    if L < 3:
+        return dict(status="inconclusive", detail="the collection was tiled at depth %d only: no ancestors to speak of" % L)
+    r = dict(counters=dict(fits_tiler_collections=1, fits_tiler_data_tiles=n, max_fits_tiler_depth=L), nontrivial=n > 0 and spec["n"] >= 2, sample=dict(spec=spec, deepest=L, tiles=len(tiles)))
+    return _fin(r, probs)
+
+
 def _fin(r, probs):
     if probs:
         keys = sorted({k for k, _ in probs})
@@ -562,6 +609,8 @@ def run_case(spec, workdir):
         return case_chunk(spec)
     if t == "sampling":
         return case_sampling(spec, workdir)
+    if t == "fits_tiler":
+        return case_fits_tiler(spec, workdir)
     return case_chunks_all(spec, workdir)
 
 
